@@ -494,6 +494,7 @@ class BlockUploadStream(io.RawIOBase):
         self._server_crc = None
         self._ackseq = 0
         self._error = False
+        self._pending = b""
 
         logger.debug("Reading 0x%04X:%02X from node %d", index, subindex,
                      sdo_client.rx_cobid - 0x600)
@@ -535,6 +536,10 @@ class BlockUploadStream(io.RawIOBase):
         :returns: 1 - 7 bytes of data or no bytes if EOF.
         :rtype: bytes
         """
+        if self._pending:
+            # Data left over from a readinto() with a too small buffer
+            data, self._pending = self._pending, b""
+            return data
         if self._done:
             return b""
         if size is None or size < 0:
@@ -629,8 +634,11 @@ class BlockUploadStream(io.RawIOBase):
         and return the number of bytes read.
         """
         data = self.read(7)
-        b[:len(data)] = data
-        return len(data)
+        size = min(len(b), len(data))
+        b[:size] = data[:size]
+        # Keep what did not fit for the next read
+        self._pending = data[size:]
+        return size
 
     def readable(self):
         return True
